@@ -528,6 +528,19 @@ impl<'tcx> Dumper<'tcx> {
                     }
                 }
                 if !done {
+                    if let ty::Ref(_, inner, _) = ty.kind() {
+                        if let ty::Array(elem, len) = inner.kind() {
+                            if let Some(n) = len.try_to_target_usize(tcx) {
+                                let (prov, off) = ptr.prov_and_relative_offset();
+                                if let Some(v) = self.read_scalar_array(prov.alloc_id(), off.bytes() as usize, *elem, n as usize) {
+                                    o = o.put("array", v);
+                                    done = true;
+                                }
+                            }
+                        }
+                    }
+                }
+                if !done {
                     o = o.put_s("opaque", "ptr");
                 }
             }
@@ -551,11 +564,53 @@ impl<'tcx> Dumper<'tcx> {
                     o = o.put_s("opaque", "slice");
                 }
             }
-            ConstValue::Indirect { .. } => {
-                o = o.put_s("opaque", "indirect");
+            ConstValue::Indirect { alloc_id, offset } => {
+                // arrays of scalars (e.g. `const MARKS: [char; 13]`)
+                let mut done = false;
+                if let ty::Array(elem, len) = ty.kind() {
+                    if let Some(n) = len.try_to_target_usize(tcx) {
+                        if let Some(v) = self.read_scalar_array(alloc_id, offset.bytes() as usize, *elem, n as usize) {
+                            o = o.put("array", v);
+                            done = true;
+                        }
+                    }
+                }
+                if !done {
+                    o = o.put_s("opaque", "indirect");
+                }
             }
         }
         o.done()
+    }
+
+    fn read_scalar_array(&self, id: mir::interpret::AllocId, off: usize, elem: Ty<'tcx>, n: usize) -> Option<J> {
+        let size = match elem.kind() {
+            ty::Char => 4,
+            ty::Bool => 1,
+            ty::Uint(u) => u.bit_width().map(|b| (b / 8) as usize).unwrap_or(8),
+            ty::Int(u) => u.bit_width().map(|b| (b / 8) as usize).unwrap_or(8),
+            _ => return None,
+        };
+        if n > 4096 {
+            return None;
+        }
+        let bytes = self.read_bytes(id, off, size * n)?;
+        let mut out = Vec::new();
+        for i in 0..n {
+            let mut v: u128 = 0;
+            for b in 0..size {
+                v |= (bytes[i * size + b] as u128) << (8 * b);
+            }
+            match elem.kind() {
+                ty::Char => {
+                    let ch = char::from_u32(v as u32)?;
+                    out.push(J::obj().put_i("cp", v as i128).put_s("char", ch.to_string()).done());
+                }
+                ty::Bool => out.push(J::Bool(v != 0)),
+                _ => out.push(J::Int(v as i128)),
+            }
+        }
+        Some(J::Arr(out))
     }
 
     fn read_bytes(&self, id: mir::interpret::AllocId, off: usize, len: usize) -> Option<Vec<u8>> {
